@@ -8,6 +8,7 @@ with the current model (differential oracle).  Values returned by operations
 on the way (jvec, jtvec, fields) are compared with the fresh ones too; copies
 and reloaded simulations are continued after their original was mutated.
 """
+import copy
 import functools
 import hashlib
 import os
@@ -98,10 +99,15 @@ def new_sim(pid, mid, file_dir=None, nid='n1'):
         hs = [np.array([100., 115, 95, 120])*s_ for s_ in (1.1, 1.0, 1.05)]
         gkw = {'gridding': 'input', 'gridding_opts': emg3d.TensorMesh(
             hs, origin=(-215., -215., -400.))}
-    return emg3d.Simulation(
+    so = solver_opts(pid)
+    user = {'solver_opts': so}
+    keep = copy.deepcopy(user)
+    sim = emg3d.Simulation(
         survey, make_model(pid, mid), max_workers=1,
         receiver_interpolation='linear', file_dir=file_dir,
-        tqdm_opts=False, solver_opts=solver_opts(pid), verb=-1, **gkw)
+        tqdm_opts=False, solver_opts=so, verb=-1, **gkw)
+    sim._c12_user = (user, keep)     # the caller's option objects
+    return sim
 
 
 def vectors(pid):
@@ -350,6 +356,12 @@ def case(c):
                     if not ok:
                         disabled = True
                         break
+                u = getattr(st['S'], '_c12_user', None)
+                if u is not None and u[0] != u[1]:
+                    viol.append({'cls': 'user-options-object-modified',
+                                 'what': f'the solver_opts dict handed to '
+                                         f'Simulation changed: {u[1]} -> '
+                                         f'{u[0]}'})
                 if not disabled and not viol:
                     key = canon(st['S'], st['mid'] + st['nid'])
                     # probes: what does the simulation report now?
